@@ -534,3 +534,20 @@ Proof.
   intros n. cbn.
   induction n as [|n IH]; cbn; [reflexivity|exact IH].
 Qed.
+
+(* ------------------------------------------------------------------------------------------ *)
+(* 8. Restart is atomic under the mutex *)
+Lemma ra_atomic_restart_safe : forall phase,
+  ra_safe (ra_run phase [RaCheck; RaAct; RaNotarize]) = true /\
+  ra_safe (ra_run phase [RaNotarize; RaCheck; RaAct]) = true /\
+  ra_safe (ra_run phase [RaCheck; RaAct; RaNotarize; RaCheck; RaAct]) = true.
+Proof.
+  intros phase. unfold ra_run, ra_safe. cbn. unfold sm_Share.
+  repeat match goal with
+         | |- context [Z.ltb ?a ?b] => destruct (Z.ltb_spec a b); cbn
+         | |- context [Z.leb ?a ?b] => destruct (Z.leb_spec a b); cbn
+         end; repeat split; try reflexivity; try lia.
+Qed.
+
+Lemma ra_check_then_act_refuted : ra_safe (ra_run 0 [RaCheck; RaNotarize; RaAct]) = false.
+Proof. reflexivity. Qed.
